@@ -132,7 +132,8 @@ void DecodingTableBuilder::insertDecodeableSubstr(
 
     if ((substr->size() > 0) && (tableSubstr[index].dbits <= 1)) {
       // This substring has not been previously indexed
-      if ((*ptr == TABLEBITSO) && (bits <= TABLEBITSO)) {
+      if ((*ptr == TABLEBITSO) && (bits <= TABLEBITSO) &&
+          (substr->size() < 15)) {
         // The encoded symbol is fully represented in
         // the current chunk
         substr->push_back(symbol);
